@@ -76,6 +76,10 @@ class Evaluator:
 
     def ev(s, t):
         k = t[0]
+        if k in ('call', 'bin', 'sub') and s.overrides:
+            kk0 = _canon_leaf(t)
+            if kk0 in s.overrides:
+                return s.overrides[kk0]          # the point fixes the value of this very term (a size, a read result ...)
         if k == 'c':
             if isinstance(t[1], (int, float)) and not isinstance(t[1], bool):
                 return t[1]
